@@ -31,8 +31,17 @@ func LoadInt64(addr *int64) int64 {
 	return stdatomic.LoadInt64(addr)
 }
 
+// StoreHook32, when set, observes every 32-bit store and successful
+// compare-and-swap of instrumented code at the moment it takes effect (old
+// value, new value).  Harnesses use it to attribute each change of a packed
+// state word to the thread and event that made it.
+var StoreHook32 func(addr unsafe.Pointer, old, new uint32)
+
 func StoreUint32(addr *uint32, v uint32) {
 	vrt.AtomicPoint(unsafe.Pointer(addr), false, true, "atomic.StoreUint32")
+	if h := StoreHook32; h != nil {
+		h(unsafe.Pointer(addr), stdatomic.LoadUint32(addr), v)
+	}
 	stdatomic.StoreUint32(addr, v)
 }
 
@@ -73,7 +82,11 @@ func AddInt64(addr *int64, d int64) int64 {
 
 func CompareAndSwapUint32(addr *uint32, o, n uint32) bool {
 	vrt.AtomicPoint(unsafe.Pointer(addr), true, true, "atomic.CompareAndSwapUint32")
-	return stdatomic.CompareAndSwapUint32(addr, o, n)
+	ok := stdatomic.CompareAndSwapUint32(addr, o, n)
+	if h := StoreHook32; ok && h != nil {
+		h(unsafe.Pointer(addr), o, n)
+	}
+	return ok
 }
 
 func CompareAndSwapUint64(addr *uint64, o, n uint64) bool {
